@@ -147,7 +147,17 @@ where
 
     writeln!(writer, "#[derive(Debug, Default, YaSerialize, YaDeserialize)]")?;
     if let Some(tns) = &target_namespace {
-        let namespaces = format!("\"{}\" = \"{}\"", tns.abbreviation, tns.namespace);
+        let mut namespaces = format!("\"{}\" = \"{}\"", tns.abbreviation, tns.namespace);
+        // members declared in another namespace (inherited or referenced) are written with that namespace's prefix
+        let mut declared = vec![tns.abbreviation.as_str()];
+        for field in fields {
+            if let Some(ns) = &field.target_namespace {
+                if !declared.contains(&ns.abbreviation.as_str()) {
+                    declared.push(ns.abbreviation.as_str());
+                    namespaces.push_str(&format!(", \"{}\" = \"{}\"", ns.abbreviation, ns.namespace));
+                }
+            }
+        }
         writeln!(
             writer,
             "#[yaserde(prefix = \"{}\", namespaces = {{{}}}, rename = \"{}\")]",
